@@ -518,11 +518,183 @@ Qed.
 Lemma wr_bytes_ext d1 d2 off b : (forall o, d1 o = d2 o) -> forall o, wr_bytes d1 off b o = wr_bytes d2 off b o.
 Proof. intros H o. rewrite !wr_bytes_spec. destruct (_ && _); auto. Qed.
 
+(* ---- write-through: the run with clean entries and one direct write at the end, compared with the
+        write-back run of the same request ---- *)
+Definition erel (blk0 : N) (cnt0 : nat) (a b : entry) : Prop :=
+  e_use a = e_use b /\ e_blk a = e_blk b /\ e_at a = e_at b /\ e_buf a = e_buf b /\
+  (e_dirty a = e_dirty b \/ (e_use a = true /\ blk0 <= e_blk a < blk0 + N.of_nat cnt0)).
+
+Definition inrange (bsz blk0 : N) (cnt0 : nat) (o : N) : Prop := blk0 * bsz <= o < (blk0 + N.of_nat cnt0) * bsz.
+
+Record Sim (blk0 : N) (cnt0 : nat) (sd sc : st) : Prop := {
+  m_bs : bs sd = bs sc; m_ck : clock sd = clock sc; m_nc : nocache sd = nocache sc;
+  m_wd : wthru sd = false; m_wc : wthru sc = true;
+  m_ent : Forall2 (erel blk0 cnt0) (cache sd) (cache sc);
+  m_dsk : forall o, ~ inrange (bs sd) blk0 cnt0 o -> dsk sd o = dsk sc o
+}.
+
+Lemma F2_find_idx blk0 cnt0 blk : forall c c' k, Forall2 (erel blk0 cnt0) c c' -> find_idx blk c k = find_idx blk c' k.
+Proof.
+  intros c c' k H. revert k. induction H as [|a b c c' R _ IH]; intros k; cbn [find_idx]; [reflexivity|].
+  destruct R as (U & B & _). rewrite U, B. destruct (e_use b && (e_blk b =? blk)); [reflexivity|apply IH].
+Qed.
+
+Lemma F2_first_unused blk0 cnt0 : forall c c' k, Forall2 (erel blk0 cnt0) c c' -> first_unused c k = first_unused c' k.
+Proof.
+  intros c c' k H. revert k. induction H as [|a b c c' R _ IH]; intros k; cbn [first_unused]; [reflexivity|].
+  destruct R as (U & _). rewrite U. destruct (e_use b); [apply IH|reflexivity].
+Qed.
+
+Lemma F2_oldest blk0 cnt0 : forall c c' k best, Forall2 (erel blk0 cnt0) c c' -> oldest c k best = oldest c' k best.
+Proof.
+  intros c c' k best H. revert k best. induction H as [|a b c c' R _ IH]; intros k best; cbn [oldest]; [reflexivity|].
+  destruct R as (_ & _ & A & _). rewrite A. apply IH.
+Qed.
+
+Lemma F2_victim blk0 cnt0 c c' : Forall2 (erel blk0 cnt0) c c' -> victim c = victim c'.
+Proof. intros H. unfold victim. rewrite (F2_first_unused _ _ _ _ 0%nat H), (F2_oldest _ _ _ _ 0%nat None H). reflexivity. Qed.
+
+Lemma F2_nth blk0 cnt0 : forall c c' i, Forall2 (erel blk0 cnt0) c c' ->
+  erel blk0 cnt0 (nth i c empty_entry) (nth i c' empty_entry).
+Proof.
+  intros c c' i H. revert i. induction H as [|a b c c' R _ IH]; intros [|i]; cbn [nth]; auto.
+  - unfold erel. cbn. repeat split; auto.
+  - unfold erel. cbn. repeat split; auto.
+Qed.
+
+Lemma F2_set_nth blk0 cnt0 : forall c c' i x y, Forall2 (erel blk0 cnt0) c c' -> erel blk0 cnt0 x y ->
+  Forall2 (erel blk0 cnt0) (set_nth c i x) (set_nth c' i y).
+Proof.
+  intros c c' i x y H R. revert i. induction H as [|a b c c' R0 H IH]; intros [|i]; cbn [set_nth]; constructor; auto.
+Qed.
+
+Lemma sim_touch blk0 cnt0 sd sc i : Sim blk0 cnt0 sd sc -> Sim blk0 cnt0 (touch sd i) (touch sc i).
+Proof.
+  intros [A B C D E F G]. unfold touch. constructor; cbn [bs clock nocache wthru cache dsk]; auto; try congruence.
+  apply F2_set_nth; auto. pose proof (F2_nth _ _ _ _ i F) as (U & Bk & At & Bf & Dy).
+  unfold erel. cbn [e_use e_blk e_at e_buf e_dirty]. rewrite B. repeat split; auto.
+Qed.
+
+Lemma wr_bytes_outside d off b o : ~ (off <= o < off + N.of_nat (length b)) -> wr_bytes d off b o = d o.
+Proof.
+  intros H. rewrite wr_bytes_spec.
+  destruct (N.leb_spec off o); destruct (N.ltb_spec o (off + N.of_nat (length b))); cbn [andb]; auto. exfalso. apply H. lia.
+Qed.
+
+(* retagging slot i for a block of the request, in both runs *)
+Lemma sim_reuse blk0 cnt0 sd sc i blk : Sim blk0 cnt0 sd sc -> 0 < bs sd ->
+  (forall e, In e (cache sd) -> e_use e = true -> length (e_buf e) = N.to_nat (bs sd)) ->
+  Sim blk0 cnt0 (reuse sd i blk) (reuse sc i blk).
+Proof.
+  intros [A B C D E F G] Hb Hlen. unfold reuse.
+  pose proof (F2_nth _ _ _ _ i F) as (U & Bk & At & Bf & Dy).
+  constructor; cbn [bs clock nocache wthru cache dsk]; auto; try congruence.
+  - apply F2_set_nth; auto. unfold erel. cbn [e_use e_blk e_at e_buf e_dirty]. rewrite B, Bf. repeat split; auto.
+  - intros o Ho. unfold blk_off. rewrite <- A, <- U, <- Bk, <- Bf.
+    set (a := nth i (cache sd) empty_entry) in *. set (b := nth i (cache sc) empty_entry) in *.
+    destruct (e_use a) eqn:Ua; cbn [andb]; [|apply G; exact Ho].
+    destruct Dy as [Dy|[_ Rg]].
+    + rewrite <- Dy. destruct (e_dirty a); [|apply G; exact Ho].
+      rewrite !wr_bytes_spec. destruct (_ && _); [reflexivity|apply G; exact Ho].
+    + (* the entry belongs to the request: whatever is written lies inside the range *)
+      assert (La : length (e_buf a) = N.to_nat (bs sd)).
+      { destruct (Nat.lt_ge_cases i (length (cache sd))) as [Hi|Hi].
+        - apply Hlen; [apply nth_In; exact Hi|exact Ua].
+        - unfold a in Ua. rewrite nth_overflow in Ua by exact Hi. discriminate. }
+      assert (Out : ~ (e_blk a * bs sd <= o < e_blk a * bs sd + N.of_nat (length (e_buf a)))).
+      { rewrite La, N2Nat.id. intros X. apply Ho. unfold inrange. nia. }
+      destruct (e_dirty a); destruct (e_dirty b); rewrite ?wr_bytes_outside by exact Out; apply G; exact Ho.
+Qed.
+
+Lemma sim_wr_cached blk0 cnt0 : forall cnt sd sc blk data,
+  Sim blk0 cnt0 sd sc -> 0 < bs sd -> (0 < length (cache sd))%nat ->
+  (forall e, In e (cache sd) -> e_use e = true -> length (e_buf e) = N.to_nat (bs sd)) ->
+  length data = (cnt * N.to_nat (bs sd))%nat ->
+  blk0 <= blk -> blk + N.of_nat cnt <= blk0 + N.of_nat cnt0 ->
+  Sim blk0 cnt0 (wr_cached sd blk cnt data) (wr_cached sc blk cnt data).
+Proof.
+  induction cnt as [|cnt IH]; intros sd sc blk data S Hb HL Hlen Hd L1 L2; cbn [wr_cached]; [exact S|].
+  pose proof (m_bs _ _ _ _ S) as EB. pose proof (m_ent _ _ _ _ S) as F.
+  rewrite <- EB. rewrite <- (F2_find_idx _ _ blk _ _ 0%nat F).
+  set (bsn := N.to_nat (bs sd)) in *.
+  assert (Lb : length (firstn bsn data) = bsn) by (rewrite firstn_length; simpl in Hd; lia).
+  assert (Lr : length (skipn bsn data) = (cnt * bsn)%nat) by (rewrite skipn_length; simpl in Hd; lia).
+  assert (STEP : forall sd1 sc1 i, Sim blk0 cnt0 sd1 sc1 -> bs sd1 = bs sd -> length (cache sd1) = length (cache sd) ->
+            (forall j, (j < length (cache sd1))%nat -> j <> i -> e_use (nth j (cache sd1) empty_entry) = true ->
+                       length (e_buf (nth j (cache sd1) empty_entry)) = bsn) ->
+            let e := nth i (cache sd1) empty_entry in let e' := nth i (cache sc1) empty_entry in
+            Sim blk0 cnt0
+              (wr_cached (mkSt (bs sd1) (set_nth (cache sd1) i (mkE true (negb (wthru sd1)) blk (e_at e) (firstn bsn data)))
+                               (clock sd1) (nocache sd1) (wthru sd1) (dsk sd1)) (blk + 1) cnt (skipn bsn data))
+              (wr_cached (mkSt (bs sc1) (set_nth (cache sc1) i (mkE true (negb (wthru sc1)) blk (e_at e') (firstn bsn data)))
+                               (clock sc1) (nocache sc1) (wthru sc1) (dsk sc1)) (blk + 1) cnt (skipn bsn data))).
+  { intros sd1 sc1 i S1 B1 Len1 Hl1 e e'.
+    destruct S1 as [A1 B1' C1 D1 E1 F1 G1].
+    pose proof (F2_nth _ _ _ _ i F1) as (_ & _ & At & _).
+    apply IH; cbn [bs cache]; try lia.
+    - constructor; cbn [bs clock nocache wthru cache dsk]; auto.
+      apply F2_set_nth; auto. unfold erel. cbn [e_use e_blk e_at e_buf e_dirty]. unfold e, e'. rewrite At.
+      repeat split; auto. right. split; [reflexivity|lia].
+    - rewrite length_set_nth. lia.
+    - rewrite B1. intros x Hx Ux. destruct (In_set_nth_pos _ _ _ empty_entry _ Hx) as [->|(j & J1 & J2 & J3)]; [cbn [e_buf]; exact Lb|].
+      subst x. apply Hl1; auto. }
+  assert (HlenN : forall j, (j < length (cache sd))%nat -> e_use (nth j (cache sd) empty_entry) = true ->
+                           length (e_buf (nth j (cache sd) empty_entry)) = bsn).
+  { intros j Hj U. apply Hlen; [apply nth_In; exact Hj|exact U]. }
+  destruct (find_idx blk (cache sd) 0) as [i|] eqn:FI.
+  - pose proof (sim_touch _ _ _ _ i S) as St.
+    apply (STEP (touch sd i) (touch sc i) i St); cbn [touch bs cache]; auto.
+    + rewrite length_set_nth. reflexivity.
+    + rewrite length_set_nth. intros j Hj Hji. rewrite nth_set_nth_neq by auto. apply HlenN; exact Hj.
+  - rewrite <- (F2_victim _ _ _ _ F).
+    pose proof (sim_reuse _ _ _ _ (victim (cache sd)) blk S Hb Hlen) as Sr.
+    apply (STEP (reuse sd (victim (cache sd)) blk) (reuse sc (victim (cache sd)) blk) (victim (cache sd)) Sr); cbn [reuse bs cache]; auto.
+    + rewrite length_set_nth. reflexivity.
+    + rewrite length_set_nth. intros j Hj Hji. rewrite nth_set_nth_neq by auto. apply HlenN; exact Hj.
+Qed.
+
+Lemma F2_length {A B} (R : A -> B -> Prop) l l' : Forall2 R l l' -> length l = length l'.
+Proof. induction 1; cbn; auto. Qed.
+
+Lemma erel_refl blk0 cnt0 c : Forall2 (erel blk0 cnt0) c c.
+Proof. induction c; constructor; auto. unfold erel. repeat split; auto. Qed.
+
+(* the write-through run, once its direct write is done, satisfies the invariant that the write-back run satisfies *)
+Lemma sim_inv blk cnt sd sc sp' data :
+  Sim blk cnt sd sc -> Inv sd sp' -> nocache sd = false ->
+  length data = (cnt * N.to_nat (bs sd))%nat ->
+  (forall o, wr_bytes sp' (blk * bs sd) data o = sp' o) ->
+  Inv (mkSt (bs sc) (cache sc) (clock sc) (nocache sc) (wthru sc) (wr_bytes (dsk sc) (blk * bs sd) data)) sp'.
+Proof.
+  intros [A B C D E F G] I NC Hlen Hsp. pose proof (i_bs _ _ I) as Hb. pose proof (F2_length _ _ _ F) as FL.
+  assert (Rng : forall o, inrange (bs sd) blk cnt o <-> blk * bs sd <= o < blk * bs sd + N.of_nat (length data)).
+  { intros o. unfold inrange. rewrite Hlen. split; intros; nia. }
+  constructor; cbn [bs cache dsk nocache wthru].
+  - rewrite <- A. exact Hb.
+  - intros e He U. destruct (In_nth_ex _ _ empty_entry He) as (i & Hi & <-).
+    pose proof (F2_nth _ _ _ _ i F) as (U' & Bk & _ & Bf & _). rewrite <- A, <- Bk, <- Bf.
+    apply (i_buf _ _ I); [apply nth_In; lia|congruence].
+  - intros o Ho. rewrite <- Hsp. rewrite !wr_bytes_spec.
+    destruct ((blk * bs sd <=? o) && (o <? blk * bs sd + N.of_nat (length data))) eqn:R; [reflexivity|].
+    assert (NR : ~ inrange (bs sd) blk cnt o).
+    { rewrite Rng. intros X. apply andb_false_iff in R. destruct R as [R|R]; [apply N.leb_gt in R|apply N.ltb_ge in R]; lia. }
+    rewrite <- (G o NR). apply (i_dsk _ _ I). intros a Ha Ua Da Ca.
+    destruct (In_nth_ex _ _ empty_entry Ha) as (i & Hi & <-).
+    pose proof (F2_nth _ _ _ _ i F) as (U' & Bk & _ & _ & Dy).
+    destruct Dy as [Dy|[_ Rg]].
+    + apply (Ho (nth i (cache sc) empty_entry)); [apply nth_In; lia|congruence|congruence|].
+      unfold covers in *. rewrite <- A, <- Bk. exact Ca.
+    + apply NR. unfold inrange, covers in *. nia.
+  - rewrite <- C, NC. discriminate.
+  - rewrite <- FL. intros i j Hi Hj Hij U1 U2.
+    pose proof (F2_nth _ _ _ _ i F) as (Ui & Bi & _). pose proof (F2_nth _ _ _ _ j F) as (Uj & Bj & _).
+    rewrite <- Bi, <- Bj. apply (i_uniq _ _ I); auto; congruence.
+Qed.
+
 Definition wf_op (bsz : N) (o : op) : Prop :=
   match o with
   | Wr blk cnt data => length data = N.to_nat (cnt * bsz)
   | SetBlk n => 0 < n
-  | WThru on => on = false
   | _ => True
   end.
 
@@ -532,7 +704,7 @@ Fixpoint wf_ops (bsz : N) (ops : list op) : Prop :=
   | o :: r => wf_op bsz o /\ wf_ops (match o with SetBlk n => n | _ => bsz end) r
   end.
 
-Definition Good (s : st) (sp : disk) := Inv s sp /\ wthru s = false /\ (0 < length (cache s))%nat.
+Definition Good (s : st) (sp : disk) := Inv s sp /\ True /\ (0 < length (cache s))%nat.
 
 Lemma step_ok s sp o : Good s sp -> wf_op (bs s) o ->
   let '(s', r) := step s o in
@@ -568,9 +740,28 @@ Proof.
       * destruct (flush_ok s sp true I) as (F1 & F2 & F3 & F4 & F5 & F6 & F7 & F8). cbv zeta in *.
         split; [|split; auto]. split3; cbn [wthru cache]; try congruence; try lia.
         unfold blk_off. rewrite F5. apply Inv_clean; auto. apply wr_bytes_ext. exact F2.
-      * rewrite WT.
-        destruct (wr_cached_ok (N.to_nat cnt) s blk data sp I NC WT HL) as (J1 & J2 & J3 & J4 & J5); [lia|].
-        cbv zeta in *. split; [|split; auto]. split3; auto. lia.
+      * destruct (wthru s) eqn:WTs.
+        -- (* write-through: compare with the write-back run of the same request from the same state *)
+           set (sf := mkSt (bs s) (cache s) (clock s) (nocache s) false (dsk s)).
+           assert (If : Inv sf sp) by (destruct I as [A B C D E]; constructor; auto).
+           destruct (wr_cached_ok (N.to_nat cnt) sf blk data sp If NC eq_refl HL) as (J1 & J2 & J3 & J4 & J5); [cbn [sf bs]; lia|].
+           cbv zeta in *. cbn [sf bs cache] in J1, J2, J5.
+           assert (S0 : Sim blk (N.to_nat cnt) sf s).
+           { constructor; cbn [sf bs clock nocache wthru cache dsk]; auto. apply erel_refl. }
+           assert (Lenb : forall e, In e (cache sf) -> e_use e = true -> length (e_buf e) = N.to_nat (bs sf)).
+           { intros e He U. rewrite (i_buf _ _ If e He U). apply rd_bytes_length. }
+           pose proof (sim_wr_cached blk (N.to_nat cnt) (N.to_nat cnt) sf s blk data S0 Hb HL Lenb ltac:(cbn [sf bs]; lia) ltac:(lia) ltac:(lia)) as S1.
+           pose proof (sim_inv blk (N.to_nat cnt) _ _ _ data S1 J1 J3 ltac:(rewrite J2; cbn [sf bs]; lia)) as K.
+           rewrite J2 in K. cbn [sf bs] in K.
+           assert (Idem : forall o, wr_bytes (wr_bytes sp (blk * bs s) data) (blk * bs s) data o = wr_bytes sp (blk * bs s) data o).
+           { intros o. rewrite !wr_bytes_spec. destruct (_ && _); reflexivity. }
+           specialize (K Idem).
+           pose proof (m_bs _ _ _ _ S1) as EB. rewrite J2 in EB. cbn [sf bs] in EB.
+           pose proof (F2_length _ _ _ (m_ent _ _ _ _ S1)) as EL. rewrite J5 in EL.
+           unfold blk_off. split; [|split; [reflexivity|cbn [bs]; congruence]].
+           split3; [exact K|exact Logic.I|cbn [cache]; lia].
+        -- destruct (wr_cached_ok (N.to_nat cnt) s blk data sp I NC WTs HL) as (J1 & J2 & J3 & J4 & J5); [lia|].
+           cbv zeta in *. split; [|split; auto]. split3; auto. lia.
   - (* WrB *)
     destruct (nocache s) eqn:NC.
     + split; [|auto]. split3; auto. unfold blk_off.
@@ -604,7 +795,7 @@ Proof.
     split; [|auto]. split3; cbn [wthru cache]; auto.
     destruct I as [A B C D E]. constructor; cbn [bs cache dsk nocache]; auto. discriminate.
   - (* WThru *)
-    cbn [wf_op] in W. subst on. split; [|auto]. split3; cbn [wthru cache]; auto.
+    split; [|auto]. split3; cbn [wthru cache]; auto.
     destruct I as [A B C D E]. constructor; cbn [bs cache dsk nocache]; auto.
 Qed.
 
